@@ -18,8 +18,9 @@ ORDERING_VALUES = {'Less': (1 << 8) - 1, 'Equal': 0, 'Greater': 1}  # i8 -1 as u
 
 
 class Path:
-    def __init__(self, fn, blocks, end, assumed, decisions):
+    def __init__(self, fn, blocks, end, assumed, decisions, havoc=False):
         self.fn = fn
+        self.havoc = havoc
         self.blocks = blocks
         self.end = end            # 'return' | 'diverge' | 'cut'
         self.assumed = assumed    # dict expr -> value or ('not', (values...))
@@ -29,7 +30,7 @@ class Path:
     @property
     def sym(self):
         if self._sym is None:
-            self._sym = PathSym(self.fn, self.blocks)
+            self._sym = PathSym(self.fn, self.blocks, havoc=self.havoc)
         return self._sym
 
     def calls(self):
@@ -80,7 +81,7 @@ def const_discr(fn, e):
     return None
 
 
-def explore(fn, oracle=None, max_visits=2, limit=5000, start=0, stop_blocks=()):
+def explore(fn, oracle=None, max_visits=2, limit=5000, start=0, stop_blocks=(), havoc=False):
     """returns list[Path]"""
     out = []
     stop_blocks = set(stop_blocks)
@@ -91,19 +92,19 @@ def explore(fn, oracle=None, max_visits=2, limit=5000, start=0, stop_blocks=()):
         bid = blocks[-1]
         t = fn.blocks[bid]['term']
         if bid in stop_blocks and len(blocks) > 1:
-            out.append(Path(fn, blocks, 'cut', assumed, decisions))
+            out.append(Path(fn, blocks, 'cut', assumed, decisions, havoc))
             return
         k = t['k'] if t else None
         if k == 'return':
-            out.append(Path(fn, blocks, 'return', assumed, decisions))
+            out.append(Path(fn, blocks, 'return', assumed, decisions, havoc))
             return
         succ = fn.succ(bid)
         if not succ:
-            out.append(Path(fn, blocks, 'diverge', assumed, decisions))
+            out.append(Path(fn, blocks, 'diverge', assumed, decisions, havoc))
             return
         nxt = None
         if k == 'switch':
-            ps = PathSym(fn, blocks)
+            ps = PathSym(fn, blocks, havoc=havoc)
             e = ps.operand_at(t['discr'], (len(blocks) - 1, 'T'))
             val = const_discr(fn, e)
             how = 'const'
@@ -125,7 +126,7 @@ def explore(fn, oracle=None, max_visits=2, limit=5000, start=0, stop_blocks=()):
                     tgt = t['otherwise']
                 na = dict(assumed)
                 na[e] = val
-                nxt = [(tgt, na, decisions + [(bid, e, val, how)])]
+                nxt = [(tgt, na, decisions + [(len(blocks) - 1, bid, e, val, how)])]
             else:
                 nxt = []
                 excluded = ()
@@ -136,20 +137,26 @@ def explore(fn, oracle=None, max_visits=2, limit=5000, start=0, stop_blocks=()):
                         continue
                     na = dict(assumed)
                     na[e] = v
-                    nxt.append((b, na, decisions + [(bid, e, v, 'fork')]))
+                    nxt.append((b, na, decisions + [(len(blocks) - 1, bid, e, v, 'fork')]))
                 ob = t['otherwise']
                 ot = fn.blocks[ob]['term']
                 # the otherwise arm of an exhaustive enum match is `unreachable`
                 if not (ot and ot['k'] == 'unreachable' and not fn.blocks[ob]['stmts']):
                     na = dict(assumed)
-                    na[e] = ('not', tuple(v for v, _ in targets) + tuple(excluded))
-                    nxt.append((ob, na, decisions + [(bid, e, ('not', tuple(v for v, _ in targets)), 'fork')]))
+                    dp = t['discr'].get('copy') or t['discr'].get('move')
+                    is_bool = dp is not None and not dp['proj'] and fn.local_ty(dp['local']) == 'bool'
+                    if is_bool and len(targets) == 1 and targets[0][0] in (0, 1):
+                        oval = 1 - targets[0][0]      # the other truth value
+                    else:
+                        oval = ('not', tuple(v for v, _ in targets) + tuple(excluded))
+                    na[e] = oval
+                    nxt.append((ob, na, decisions + [(len(blocks) - 1, bid, e, oval, 'fork')]))
         else:
             nxt = [(s, assumed, decisions) for s in succ]
         for (s, na, nd) in nxt:
             c = visits.get(s, 0)
             if c >= max_visits:
-                out.append(Path(fn, blocks + [s], 'cut', na, nd))
+                out.append(Path(fn, blocks + [s], 'cut', na, nd, havoc))
                 continue
             nv = dict(visits)
             nv[s] = c + 1
